@@ -32,6 +32,10 @@ CHECKS = {
    technique="exhaustive input enumeration x output configurations, differential execution: source text vs every compiled output run by the goja engine in fresh realms with logging proxies",
    text="Every program of the bounded universes (all loop-free token sequences <= n, print(E) for every expression chain, an executable statement family in every layout with <= k deviations) is compiled in every configuration of the tier and both source and output are executed; the observation (ordered log of calls, property accesses and conversions, completion kind and value) must coincide. Evaluation-order logging makes grouping, token fusion, semicolon policy and dropped/reordered tokens observable.",
    note="trusted: goja engine (both sides), harness prelude; Function.prototype.toString neutralised (function source text is layout); interrupted runs give no verdict"),
+ "C07": dict(cat="exploration", sec="4 C07",
+   technique="exhaustive enumeration of literal families (every \\xHH, every \\uHHHH, boundary \\u{...}, all ASCII bytes raw/escaped, all fragment pairs and triples, all short backtick sequences, all small number shapes), value comparison on the goja engine",
+   text="Every literal of the enumerated families is evaluated in the source and in the emitted JavaScript (compact and pretty) by the reference engine and compared as UTF-16 code units / numeric string. The lexer decodes some escapes and the printer re-quotes, so every (escape, decoded value, delimiter) combination is enumerated rather than sampled; concatenations are exhaustive pairs/triples over a fragment alphabet.",
+   note="trusted: goja literal evaluation on both sides; batches of 40 literals per program, mismatching batches re-run literal by literal"),
  "C09": dict(cat="model_checking", sec="4 C09",
    technique="explicit-state exploration: all builder call histories <= depth 5/6 (stateless) + BFS with abstract-state dedup to depth 7/9, real SourceMapper vs list model, independent VLQ decoder",
    text="Every operation history up to the bound over a 25-call alphabet is executed on the real builder in lock-step with a reference model and the emitted mappings are decoded by an independent Source Map v3 decoder; every VLQ delta in [-2^20,2^20] is encoded through the public API and decoded. Exhaustive within the bound, which is where delta-reset, name carry-over and continuation-bit bugs live.",
